@@ -66,6 +66,10 @@ PRE = {
     'both-forms': [('add', 1), ('add', 3), ('pack', 'YES', False, True), ('add', 2), ('loosen', 3), ('topack', (0,), True, False, True)],
     # nothing at all
     'empty': [],
+    # one pack that is neither empty nor full (the next direct-to-pack write appends to an existing pack)
+    'partial-pack': [('topack', (1,), False, False, True), ('add', 2)],
+    # index rows written but not yet committed by this handle (do_commit=False), for contents that also exist loose
+    'uncommitted-rows': [('add', 1), ('add', 2), ('topack', (1, 2), False, False, True, ('kw', ('do_commit', False)))],
 }
 
 
@@ -79,6 +83,8 @@ def scenarios(tier: str):
 
     pres_quick = {'mixed'}
     for pre in PRE:
+        if pre in ('partial-pack', 'uncommitted-rows'):
+            continue
         q = pre in pres_quick
         t = ('quick',) if q else ()
         add('add-new', pre, ('add', N), t)
@@ -117,6 +123,12 @@ def scenarios(tier: str):
         add('topack-batch-twice-nh1-tw0-c1', pre, ('topack', (N, N, 2, N, 3), True, True, False))
         add('stopack-lazy-plain', pre, ('stopack', (2, N, 0), False, False, True, True))
         add('sotopack-compress', pre, ('sotopack', N, True, False, True))
+    out.append(Scenario('topack-append-to-existing@partial-pack', PRE['partial-pack'], ('topack', (N, 0), False, False, True), universe=universe5(), tags=('quick',)))
+    out.append(Scenario('import-same-append@partial-pack', PRE['partial-pack'], ('import', (N, 3), False, 104857600, 'same'), universe=universe5(), tags=('quick',)))
+    out.append(Scenario('pack-append@partial-pack', PRE['partial-pack'], ('pack', 'NO', True, True), universe=universe5(), tags=('quick',)))
+    out.append(Scenario('clean@uncommitted-rows', PRE['uncommitted-rows'], ('clean', False), universe=universe5(), tags=('quick', 'uncommitted')))
+    out.append(Scenario('pack@uncommitted-rows', PRE['uncommitted-rows'], ('pack', 'NO', True, True), universe=universe5(), tags=('uncommitted',)))
+    out.append(Scenario('add-damaged-truncated-copy@mixed', PRE['mixed'] + [('damage', 2)], ('adds', 2), universe=universe5(), tags=('quick', 'damaged')))
     # pack after packing: scenario where pack_all_loose crosses into a new pack with existing objects
     out.append(Scenario('add-damaged-copy@mixed', PRE['mixed'] + [('damage', 1)], ('add', 1), universe=universe5(),
                         tags=('quick', 'damaged')))
@@ -284,9 +296,9 @@ def check_image(path, info, allow_missing_pack_exception=True):
                                            f'{why or repr(got[:20]) + " len " + str(len(got))}'))
     byk = raw.rows_by_key()
     for k, data in raw.loose.items():
-        if k in info['damaged'] and k not in byk:
-            continue    # the scenario itself planted a damaged loose copy; judged by the final state only
-        if content.get(k) != data and k not in info['damaged']:
+        if k in info['damaged'] and data == b'damaged!':
+            continue    # the scenario itself planted this damaged loose copy; it may still be in place
+        if content.get(k) != data:
             probs.append(('raw-loose-bytes', f'loose file {k[:10]} holds {len(data)} bytes that do not hash to its name'))
     for k in must:
         if k in info['damaged']:
@@ -348,6 +360,8 @@ class _Injector(iolayer.Consumer):
             raise sqlite3.OperationalError('disk I/O error (injected)')
         if self.variant == 'partial' and ev.kind == 'f.write':
             raise PartialWrite(max(1, int(ev.detail or '2') // 2))
+        if self.variant == 'eacces':
+            raise PermissionError(errno.EACCES, 'Permission denied (injected)', ev.path)
         raise OSError(errno.EIO, 'Input/output error (injected)', ev.path)
 
 
